@@ -23,7 +23,7 @@ def src_operands(regs, quick):
         out.append(("0x%04x" % a, 1, 0, "sym", a))
     for v, (a_s, reg) in CG.items():
         out.append(("#%d" % v, a_s, reg, None, 0))
-    for v in ((3, 0x1234) if quick else (3, 5, 0x10, 0x1234, 0x7fff, 0x8000, 0xfffe, -2, -0x8000)):
+    for v in ((3, 0x7f, 0xff, 0x100, 0x1234) if quick else (3, 5, 7, 9, 0x10, 0x7f, 0x80, 0xff, 0x100, 0x1234, 0x7fff, 0x8000, 0xfffe, -2, -0x8000)):
         out.append(("#%d" % v if v < 16 else "#0x%04x" % v if v > 0 else "#%d" % v, 3, 0, "abs", v))
     return out
 
